@@ -9,6 +9,7 @@
 
 #include <complex>
 #include <cstring>
+#include <memory>
 #include <utility>
 
 namespace c10
@@ -90,7 +91,7 @@ namespace c10
     {
         C10_OPERANDS(K1, B1, K2, B2)
         auto& r = Op::cmpd(x, y);
-        if (&r != &x) io.flags |= F_RETREF;
+        if (std::addressof(r) != std::addressof(x)) io.flags |= F_RETREF;
         io.out[0] = x.real(); io.out[1] = x.imag();
         C10_POST2()
     }
@@ -124,7 +125,7 @@ namespace c10
         C10_OPERAND1(K1, B1)
         S s = static_cast<S>(sc);
         auto& r = Op::cmpd(x, s);
-        if (&r != &x) io.flags |= F_RETREF;
+        if (std::addressof(r) != std::addressof(x)) io.flags |= F_RETREF;
         io.out[0] = x.real(); io.out[1] = x.imag();
         C10_POST1()
     }
@@ -150,7 +151,7 @@ namespace c10
     {
         C10_OPERANDS(K1, B1, K2, B2)
         auto& r = (x = y);
-        if (&r != &x) io.flags |= F_RETREF;
+        if (std::addressof(r) != std::addressof(x)) io.flags |= F_RETREF;
         io.out[0] = x.real(); io.out[1] = x.imag();
         C10_POST2()
     }
@@ -161,7 +162,7 @@ namespace c10
     {
         C10_OPERAND1(K1, B1)
         auto& r = (x = sc);
-        if (&r != &x) io.flags |= F_RETREF;
+        if (std::addressof(r) != std::addressof(x)) io.flags |= F_RETREF;
         io.out[0] = x.real(); io.out[1] = x.imag();
         C10_POST1()
     }
